@@ -56,6 +56,8 @@ def admissible(edges, v, right_continuous, step=None, eps=EPS64, single_open=Tru
     n = len(edges)
     if n == 1 and single_open:
         right_continuous = True  # pinned by tests.test_calc: single-edge grids are open-ended
+    if math.isinf(v):
+        return {n - 1} if (v > 0 and right_continuous) else {-1}
     k = true_bin(edges, v)
     allowed = {k}
     if k + 1 < n and edges[k + 1] - v <= slack(v, k + 1, edges, eps):
